@@ -42,7 +42,8 @@ struct LssRun : NodeEnv {
     void lssFrame(const Op &o) {
         uint8_t cs = (uint8_t)o.arg(0); Frame f(0x7E5, 8, o.b); f.d[0] = cs; uint32_t arg = f.u32(1);
         bool wasConf = conf; std::vector<uint8_t> img = w.image(0);
-        size_t mk = w.mark(); Fx fx = deliver(f);
+        if (o.arg(1, 0)) { S().sendFail = 1; S().sendFailRet = o.arg(1) == 1 ? -1 : 0; cov.hit(o.arg(1) == 1 ? "F5-answer-refused-with-error" : "F5-answer-refused-with-zero"); }   // F5: the CAN driver refuses the answer (error, or 'nothing sent'): the attempt is the answer, everything else as usual
+        size_t mk = w.mark(); Fx fx = deliver(f); S().sendFail = 0; S().sendFailRet = -1;
         if (fx.appRx) { fail("lss/app-callback", "LSS frame handed to the application callback"); return; }
         for (auto &e : fx.evs) if (e.kind == EV_PDORECEIVE || e.kind == EV_HBCHANGE || e.kind == EV_RESETREQ) { fail("lss/other-service", "LSS frame reached another service"); return; }
         for (auto &t : fx.tx) if (t.id != 0x7E4) { fail("lss/foreign-tx", "LSS request answered on " + hex(t.id)); return; }
@@ -130,7 +131,7 @@ Plan gen_lss(Rng &r, bool thorough) {
     static const uint32_t IDV[] = {0, 1, 2, 0x7FFFFFFF, 0x80000000u, 0xFFFFFFFEu, 0xFFFFFFFFu, 0x12345678};
     auto ident = [&](int part) { return IDV[(size_t)p.cfg["id" + std::to_string(part)] % 8]; };
     auto argOf = [&](int part) -> uint32_t { uint32_t v = ident(part); int c = (int)r.below(10); return c < 6 ? v : c == 6 ? v + 1 : c == 7 ? v - 1 : c == 8 ? r.pick<uint32_t>({0, 0xFFFFFFFFu, 0x12345678}) : (uint32_t)r.next(); };
-    auto frame = [&](uint8_t cs, uint32_t a, uint8_t b5 = 0) { std::vector<uint8_t> b = {cs, (uint8_t)a, (uint8_t)(a >> 8), (uint8_t)(a >> 16), (uint8_t)(a >> 24), b5, 0, 0}; return Op("lss", {cs}, b); };
+    auto frame = [&](uint8_t cs, uint32_t a, uint8_t b5 = 0) { std::vector<uint8_t> b = {cs, (uint8_t)a, (uint8_t)(a >> 8), (uint8_t)(a >> 16), (uint8_t)(a >> 24), b5, 0, 0}; return Op("lss", {cs, r.chance(1, 12) ? (int64_t)r.range(1, 2) : 0}, b); };
     int n = (int)r.range(3, thorough ? 50 : 25);
     for (int i = 0; i < n; i++) {
         int c = (int)r.below(24);
